@@ -77,15 +77,20 @@ class Batch:
         self.emit_dir = None
         self.emitted = []
 
+    def _corpus_args(self):
+        # every run index must mean the same run wherever it is executed (batch, self-check, crash reconstruction)
+        cdir = os.path.join(VERIF, "corpus", self.prop)
+        if os.path.isdir(cdir) and self.prop not in ("C13", "C18"):
+            return ["--corpus", cdir]
+        return []
+
     def _spawn(self, idx, frm, count, extra=()):
         prog = os.path.join(self.tmp, "progress-%s-%d-%d" % (self.variant, idx, frm))
         cmd = hb.command(self.variant) + ["worker", "--prop", self.prop, "--tier", self.tier, "--seed-base", str(self.seed), "--from", str(frm), "--count", str(count), "--progress", prog]
         if self.budget_s:
             cmd += ["--budget-s", str(self.budget_s)]
         cmd += list(extra)
-        cdir = os.path.join(VERIF, "corpus", self.prop)
-        if os.path.isdir(cdir) and self.prop not in ("C13", "C18"):
-            cmd += ["--corpus", cdir]
+        cmd += self._corpus_args()
         if self.emit_dir:
             f = os.path.join(self.emit_dir, "sc-%s-%d-%d.jsonl" % (self.variant, idx, frm))
             self.emitted.append(f)
@@ -181,7 +186,7 @@ class Batch:
                     return d["scenario"]
             return None
         path = os.path.join(self.tmp, "trace-%s-%d" % (self.variant, index))
-        cmd = hb.command(self.variant) + ["worker", "--prop", self.prop, "--tier", self.tier, "--seed-base", str(self.seed), "--from", str(index), "--count", "1", "--trace", path]
+        cmd = hb.command(self.variant) + ["worker", "--prop", self.prop, "--tier", self.tier, "--seed-base", str(self.seed), "--from", str(index), "--count", "1", "--trace", path] + self._corpus_args()
         try:
             subprocess.run(cmd, stdout=subprocess.DEVNULL, stderr=subprocess.DEVNULL, timeout=120 if self.variant != "E" else 3600, env=hb.run_env(self.variant))
         except subprocess.TimeoutExpired:
